@@ -13,6 +13,8 @@ def _split(n):
             b = b.child('base')
         bk = lvalue_key(b)
         return bk, n.n
+    if n.k == 'ArraySubscriptExpr' and n.child('idx') is not None and n.child('idx').cv is not None:
+        return '%s[%d]' % (lvalue_key(n.child('base')), n.child('idx').cv), None
     if n.k == 'BinaryOperator' and n.op in ('+', '-'):
         comps = {m.n for m in n.walk() if m.k == 'MemberExpr' and m.n in ('x', 'y', 'u', 'v', 'X', 'Y')}
         return 'expr:' + n.text(), (comps.pop() if len(comps) == 1 else ('mixed' if comps else None))
@@ -65,8 +67,12 @@ def check_minmax(ctx, fn, rule='R-MINMAX', label=None):
     for u in ups:
         n += 1
         key = '%s/%s@%d' % (label or fn.qn, pretty_key(u['acc']) + ('.' + u['acc_comp'] if u['acc_comp'] else ''), u['node'].id)
+        # compared components agree (scalar accumulators / whole-vector sources carry no component)
         ok = (u['acc_comp'] == u['src_comp']) or u['acc_comp'] is None or u['src_comp'] is None
-        ok2 = (u['tgt_comp'] == u['asg_src_comp']) and (u['tgt_comp'] is None or u['tgt_comp'] == u['acc_comp'])
+        # the assignment writes the compared accumulator from the compared source
+        ok2 = (u['tgt_comp'] == u['acc_comp'] or u['tgt_comp'] is None) and (u['asg_src_comp'] == u['src_comp'] or u['asg_src_comp'] is None)
+        if u['tgt_comp'] is None and u['acc_comp'] is not None:
+            ok2 = ok2 and u['asg_src_comp'] is None  # whole-vector update (vxmin = *v) must copy the whole source
         ctx.check(ok and ok2, rule, key, u['node'].loc(), 'running %s of `%s`: compared and assigned components agree' % (u['role'], pretty_key(u['acc'])),
                   'running-extremum update mixes components: compares .%s with .%s, assigns .%s from .%s' % (u['src_comp'], u['acc_comp'], u['tgt_comp'], u['asg_src_comp']))
         rk = (u['acc'], u['acc_comp'])
